@@ -14,7 +14,7 @@ RULE = (
 ASSUMPTIONS = ["fastcache is not installed in this image, so the cachedsearch wrappers are pass-through (stated, not assumed away: they are still compared call by call)",
                "names/reprs in CountError cases are digit-free so the numbers in the message are unambiguous"]
 GATES = ["mon.C14.findall", "mon.C14.find", "mon.C14.by_attr", "mon.C14.cached", "C14.bound_equal_count", "C14.counterror_min", "C14.counterror_max",
-         "C14.attr_missing_skipped", "C14.find_none", "C14.find_one", "C14.find_many"]
+         "C14.attr_missing_skipped", "C14.find_none", "C14.find_one", "C14.find_many", "C14.none_value_with_missing_attr", "C14.unhashable_value", "C14.after_mutation"]
 
 
 def plan(tier, seed, jobs):
@@ -23,6 +23,7 @@ def plan(tier, seed, jobs):
 
 
 INTS = re.compile(r"-?\d+")
+ABSENT = "<absent>"  # marker in the tags list: the node has no 'tag' attribute at all (None is a real value)
 
 
 def call(f, *a, **kw):
@@ -93,6 +94,8 @@ def check_tree(ctx, nodes, tags, ch, s, case, bounds_all=True, rng=None):
     rng = rng
     # option sets
     sets = [frozenset(), frozenset(x for x in range(n) if tags[x] == "u"), frozenset(x for x in range(n) if x % 2), frozenset([s])]
+    pkey = tuple(case["par"]) if case.get("par") else repr(case.get("history"))[:80]
+    tkey = repr(tags)
     mls = [None, 0, 1] + list(range(2, h + 3))
     for hi, keep in enumerate([None] + sets[1:]):
         for si, stop in enumerate(sets[:3] if hi < 2 else sets[:1]):
@@ -116,7 +119,7 @@ def check_tree(ctx, nodes, tags, ch, s, case, bounds_all=True, rng=None):
                         kk["mincount"] = mn
                     if mx is not None:
                         kk["maxcount"] = mx
-                    ctx.case((case.get("par") and tuple(case["par"]), tuple(tags), s, hi, si, ml, mn, mx), sample=dict(case, **cfg) if ctx.evals % 30011 == 0 else None)
+                    ctx.case((pkey, tkey, s, hi, si, ml, mn, mx), sample=dict(case, **cfg) if ctx.evals % 30011 == 0 else None)
                     ctx.count("mon.C14.findall")
                     r1 = call(search.findall, nodes[s], **kk)
                     ok &= judge("findall", r1, exp, mn, mx, cfg)
@@ -143,12 +146,16 @@ def check_tree(ctx, nodes, tags, ch, s, case, bounds_all=True, rng=None):
                                   observed=repr(r[1])[:200] if r[0] == "exc" else m(r[1]))
                     return False
     # by_attr
-    for value in ("u", "v", "w", 1):
+    for value in ("u", "v", "w", 1, None, ["l"]):
         for ml in (None, 1, 2, h + 1):
             adm = R.admitted(ch, s, frozenset(), ml)
-            exp = [x for x in pre_all if x in adm and tags[x] is not None and tags[x] == value]
-            if any(tags[x] is None for x in pre_all if x in adm):
+            exp = [x for x in pre_all if x in adm and tags[x] is not ABSENT and tags[x] == value]
+            if any(tags[x] is ABSENT for x in pre_all if x in adm):
                 ctx.count("C14.attr_missing_skipped")
+                if value is None:
+                    ctx.count("C14.none_value_with_missing_attr")
+            if isinstance(value, list):
+                ctx.count("C14.unhashable_value")
             cnt = len(exp)
             for mn, mx in [(None, None), (cnt, cnt), (cnt + 1, None), (None, cnt - 1), (0, cnt + 1)]:
                 if mx is not None and mx < 0:
@@ -162,7 +169,7 @@ def check_tree(ctx, nodes, tags, ch, s, case, bounds_all=True, rng=None):
                 if mx is not None:
                     kk["maxcount"] = mx
                 ctx.count("mon.C14.by_attr")
-                ctx.case(("byattr", tuple(case.get("par") or ()), tuple(tags), s, value, ml, mn, mx))
+                ctx.case(("byattr", pkey, tkey, s, repr(value), ml, mn, mx))
                 r1 = call(search.findall_by_attr, nodes[s], value, **kk)
                 ok &= judge("findall_by_attr", r1, exp, mn, mx, cfg)
                 ok &= same("findall_by_attr", r1, call(cachedsearch.findall_by_attr, nodes[s], value, **kk), cfg)
@@ -193,13 +200,18 @@ def check_tree(ctx, nodes, tags, ch, s, case, bounds_all=True, rng=None):
     return ok
 
 
+def norm_tags(tags):
+    """JSON round trip safe: the marker string becomes the ABSENT object again."""
+    return [ABSENT if t == ABSENT else t for t in tags]
+
+
 def build(par, tags):
     from anytree import AnyNode
 
     nodes = []
     for i, p in enumerate(par):
         kw = {"name": "nm"}
-        if tags[i] is not None:
+        if tags[i] is not ABSENT:
             kw["tag"] = tags[i]
         nodes.append(AnyNode(**kw))
     for i, p in enumerate(par):
@@ -221,7 +233,7 @@ def run(ctx):
             ch = gen.children_of(par)
             ntag = 3 if not T else (8 if n <= 5 else 3)
             for t in range(ntag):
-                tags = [rng.choice([None, "u", "v", "u"]) for _ in range(n)]
+                tags = [rng.choice([ABSENT, "u", "v", "u", None]) for _ in range(n)]
                 if t == 0:
                     tags = ["u"] * n
                 nodes = build(par, tags)
@@ -235,12 +247,71 @@ def run(ctx):
         rng = ctx.rng("rand", r)
         n = rng.randint(7, 25)
         par, _ = gen.random_tree(rng, n)
-        tags = [rng.choice([None, "u", "v", "w", 1, True, 1.0]) for _ in range(n)]
+        tags = [rng.choice([ABSENT, "u", "v", "w", 1, True, 1.0, None, ["l"]]) for _ in range(n)]
         nodes = build(par, tags)
         check_tree(ctx, nodes, tags, gen.children_of(par), rng.choice([0, rng.randrange(n)]), {"par": list(par), "tags": tags}, bounds_all=False)
+    histories(ctx)
+
+
+def histories(ctx):
+    """The same queries through search and cachedsearch on the same node objects after every
+    mutation (attribute change or structural call): a cache inside the library would go stale."""
+    from .. import forest as F
+    from .. import trees as TR
+
+    T = ctx.tier == "thorough"
+    nh = (2000 if T else 160) // ctx.nshards + 1
+    for h in range(nh):
+        rng = ctx.rng("hist", h)
+        k = rng.randint(3, 8)
+        tags = [rng.choice([ABSENT, "u", "v", "u", None]) for _ in range(k)]
+        first = True
+        log = []
+        for nodes, par, ch, case in TR.evolving_universe(ctx, rng, "AnyNode", k, rng.randint(4, 14)):
+            if first:
+                for i, n in enumerate(nodes):
+                    n.name = "nm"
+                    if tags[i] is not ABSENT:
+                        n.tag = tags[i]
+                first = False
+            elif rng.random() < 0.6:
+                i = rng.randrange(k)
+                new = rng.choice([ABSENT, "u", "v", None])
+                log.append([len(case["history"]), i, new])
+                tags[i] = new
+                if new is ABSENT:
+                    if hasattr(nodes[i], "tag"):
+                        del nodes[i].tag
+                else:
+                    nodes[i].tag = new
+            ctx.count("C14.after_mutation")
+            roots = [i for i in range(k) if par[i] is None]
+            c2 = dict(case, tags=list(tags), tag_changes=[list(x) for x in log])
+            for s in [roots[0], rng.randrange(k)]:
+                if not check_tree(ctx, nodes, list(tags), ch, s, c2, bounds_all=False):
+                    return
 
 
 def replay(ctx, wit):
     c = wit["case"]
-    nodes = build(c["par"], c["tags"])
-    check_tree(ctx, nodes, c["tags"], gen.children_of(c["par"]), c.get("start", 0), {"par": c["par"], "tags": c["tags"]}, bounds_all=True)
+    tags = norm_tags(c["tags"])
+    if "history" in c:
+        from .. import trees as TR
+
+        # replays the structural part; attribute changes are applied at the recorded steps
+        cur = None
+        changes = c.get("tag_changes", [])
+        states = TR.replay_universe(c)
+        final = norm_tags(c["tags"])
+        for step, (nodes, par, ch) in enumerate(states):
+            if step == 0:
+                # initial tags are unknown after later changes: reconstruct backwards is not possible, so start from the final ones
+                cur = list(final)
+                for i, n in enumerate(nodes):
+                    n.name = "nm"
+                    if cur[i] is not ABSENT:
+                        n.tag = cur[i]
+            check_tree(ctx, nodes, cur, ch, c.get("start", 0), dict(c), bounds_all=False)
+        return
+    nodes = build(c["par"], tags)
+    check_tree(ctx, nodes, tags, gen.children_of(c["par"]), c.get("start", 0), {"par": c["par"], "tags": c["tags"]}, bounds_all=True)
